@@ -81,8 +81,53 @@ Fixpoint exp_r (self : list (bytes * rexp)) (calls : list (bytes * list (bytes *
 
 Definition exp_deps self calls e : dset := rflat (exp_r self calls e).
 
+(* Conversion to a declared type drops undeclared struct fields (statically,
+   for literals): what is dropped is not depended upon. *)
+Fixpoint rprune (ss : structs) (fuel : nat) (t : ty) (r : rexp) : rexp :=
+  match fuel with
+  | O => r
+  | S f =>
+      match r with
+      | RWith d r' => RWith d (rprune ss f t r')
+      | RAny l => RAny (map (rprune ss f t) l)
+      | _ =>
+          match t with
+          | TStruct n =>
+              match r, assoc_get n ss with
+              | RObj kvs, Some fs =>
+                  RObj (List.concat (map (fun ft : bytes * ty =>
+                                            match assoc_get (fst ft) kvs with
+                                            | Some x => [(fst ft, rprune ss f (snd ft) x)]
+                                            | None => []
+                                            end) fs))
+              | _, _ => r
+              end
+          | TArr t' =>
+              match r with
+              | RArr l => RArr (map (rprune ss f t') l)
+              | REach x => REach (rprune ss f t' x)
+              | _ => r
+              end
+          | TMap t' =>
+              match r with
+              | RObj kvs => RObj (map (fun kv => (fst kv, rprune ss f t' (snd kv))) kvs)
+              | REach x => REach (rprune ss f t' x)
+              | _ => r
+              end
+          | _ => r
+          end
+      end
+  end.
+
 Section Deps.
   Variable P : program.
+  Let ss : structs :=
+    pr_structs P ++ map (fun nc => (fst nc, callable_outs (snd nc))) (pr_callables P).
+  Definition prune_fields (fs : fields) (ins : list (bytes * rexp)) : list (bytes * rexp) :=
+    map (fun i => (fst i, match assoc_get (fst i) fs with
+                          | Some t => rprune ss fuel_default t (snd i)
+                          | None => snd i
+                          end)) ins.
 
   (* returns (what each output depends on, list of (stage call, its dependencies)) *)
   Fixpoint deps_callable (fuel : nat) (name : bytes) (path : list bytes)
@@ -94,9 +139,15 @@ Section Deps.
         | None => ([], [])
         | Some (CStage s) =>
             let me := join_path path in
+            let ins := prune_fields (st_ins s) ins in
             (map (fun o => (fst o, RLeaf [me])) (st_outs s),
              [(me, dedup (ctl ++ List.concat (map (fun i => rflat (snd i)) ins)))])
         | Some (CPipe p) =>
+            let ins := prune_fields (p_ins p) ins in
+            (* the preflight calls of this pipeline: every other call of the
+               pipeline, and everything nested in it (preflight calls of
+               sub-pipelines included), waits for them *)
+            let pfl := map (fun c => join_path (path ++ [c_id c])) (filter c_preflight (p_calls p)) in
             let step (acc : list (bytes * list (bytes * rexp)) * list (bytes * dset)) (c : call) :=
               let (calls, entries) := acc in
               let cdis := match c_disabled c with
@@ -116,7 +167,8 @@ Section Deps.
                                                | (true, ERef _ _ as e) => exp_deps ins calls e
                                                | _ => []
                                                end) (c_binds c)) in
-              let r := deps_callable f (c_callee c) (path ++ [c_id c]) binds (ctl ++ cdis) in
+              let r := deps_callable f (c_callee c) (path ++ [c_id c]) binds
+                         (ctl ++ cdis ++ (if c_preflight c then [] else pfl)) in
               let wrap (x : rexp) : rexp :=
                 RWith (dedup (cdis ++ sdeps)) (match c_mapped c with Some _ => REach x | None => x end) in
               (calls ++ [(c_id c, map (fun od : bytes * rexp => (fst od, wrap (snd od))) (fst r))],
@@ -124,7 +176,7 @@ Section Deps.
             let (calls, entries) := fold_left step (p_calls p) ([], []) in
             (map (fun o => (fst o,
                             match assoc_get (fst o) (p_ret p) with
-                            | Some e => exp_r ins calls e
+                            | Some e => rprune ss fuel_default (snd o) (exp_r ins calls e)
                             | None => RLeaf []
                             end)) (p_outs p),
              entries)
